@@ -180,6 +180,12 @@ pub enum CallEvKind {
     Poll,
     /// `a`
     Abort,
+    /// `*<k>` (first event of a call run inside a history): the rest of the run is first executed `k`
+    /// times without being observed
+    Repeat(usize),
+    /// `!` (pairs only): finish this side's run and start a fresh run with the same configuration
+    /// on the same graph (observation prefix `A2.` / `B2.`, ...)
+    Restart,
     /// `t`: drive the call to completion inside a tokio current-thread runtime (cooperative budget
     /// active; every function must be in `imm`)
     Tokio,
@@ -216,6 +222,8 @@ pub fn fmt_call_ev(e: &CallEv) -> String {
         CallEvKind::Poll => "p".to_string(),
         CallEvKind::Abort => "a".to_string(),
         CallEvKind::Tokio => "t".to_string(),
+        CallEvKind::Restart => "!".to_string(),
+        CallEvKind::Repeat(k) => format!("*{k}"),
     };
     if e.nosettle {
         format!("+{body}")
@@ -235,6 +243,13 @@ pub fn parse_call_ev(tok: &str) -> Result<CallEv, String> {
         "p" => CallEvKind::Poll,
         "a" => CallEvKind::Abort,
         "t" => CallEvKind::Tokio,
+        "!" => CallEvKind::Restart,
+        _ if body.starts_with('*') => {
+            let k = body[1..]
+                .parse::<usize>()
+                .map_err(|_| format!("bad call event `{tok}`"))?;
+            CallEvKind::Repeat(k)
+        }
         _ => {
             let rest = body
                 .strip_prefix('c')
